@@ -6,7 +6,7 @@
    or an array of n positive entries; [tw_vec n w] is its weight vector. *)
 From Coq Require Import Reals List Bool Permutation.
 From Verif Require Import Base.Num Base.Vec Base.VecR C02.Model C02.Proofs.
-From Verif Require Import C02.GenSyntax C02.GenSem Gen.Weighting C02.GenTie.
+From Verif Require Import C02.GenSyntax C02.GenSem Gen.Weighting C02.GenTie C02.Transfer.
 Import ListNotations.
 Local Open Scope R_scope.
 
@@ -412,3 +412,16 @@ Theorem model_follows_generated_dispatch : forall (T : Type) (HN : Num T) (HR : 
      d_weight axes LDefault p = WConst (eval_default gen_default_weighting axes p)).
 Proof. exact model_follows_generated. Qed.
 Print Assumptions model_follows_generated_dispatch.
+
+(* ================= executed instance = rational restriction of the proved instance ================= *)
+(* The inner product of every space tree (tensor and discretized leaves with partitions,
+   boundary-cell fractions, isclose snapping, boundary weight array, is_uniformly_weighted; nested
+   product spaces with every weighting) evaluated at Q by the correspondence shards IS the model the
+   theorems above speak about, restricted to rationals: Q2R commutes with [sp_inner], error
+   outcomes included.  [space_divs_ok]: the grid of every axis with n <> 1 points has nonzero
+   stride (the only divisions of the root-free model). *)
+Theorem inner_Q_instance_is_restriction_of_R_instance : forall q (s : @space Q) (x y : @elem Q),
+  space_divs_ok s ->
+  omap Q2R (sp_inner q s x y) = sp_inner q (space_map Q2R s) (elem_map Q2R x) (elem_map Q2R y).
+Proof. exact sp_inner_transfer. Qed.
+Print Assumptions inner_Q_instance_is_restriction_of_R_instance.
